@@ -229,8 +229,44 @@ func c20Mut(env *core.Env, seed uint64) {
 	env.Case()
 	rng := core.NewRng(seed, "c20-mut")
 	urls := []string{"http://u/a", "http://u/b", "http://u/c"}
+	// values of several datatypes, including pairs of the same type where the later value has zero / unset /
+	// shorter fields than the earlier one (an update that merges instead of replacing shows there)
 	mk := func(u string, v string) *dtpb.Extension {
-		return &dtpb.Extension{Url: &dtpb.Uri{Value: u}, Value: &dtpb.Extension_ValueX{Choice: &dtpb.Extension_ValueX_StringValue{StringValue: &dtpb.String{Value: v}}}}
+		e := &dtpb.Extension{Url: &dtpb.Uri{Value: u}}
+		switch rng.Intn(9) {
+		case 0:
+			e.Value = &dtpb.Extension_ValueX{Choice: &dtpb.Extension_ValueX_Boolean{Boolean: &dtpb.Boolean{Value: strings.HasPrefix(v, "v")}}} // old: true, new: false
+		case 1:
+			iv := int32(0)
+			if strings.HasPrefix(v, "v") {
+				iv = 7
+			}
+			e.Value = &dtpb.Extension_ValueX{Choice: &dtpb.Extension_ValueX_Integer{Integer: &dtpb.Integer{Value: iv}}}
+		case 2:
+			c := &dtpb.Coding{Code: &dtpb.Code{Value: v}}
+			if strings.HasPrefix(v, "v") {
+				c.System = &dtpb.Uri{Value: "http://sys"}
+				c.Id = &dtpb.String{Value: "id-" + v}
+			}
+			e.Value = &dtpb.Extension_ValueX{Choice: &dtpb.Extension_ValueX_Coding{Coding: c}}
+		case 3:
+			cc := &dtpb.CodeableConcept{Coding: []*dtpb.Coding{{Code: &dtpb.Code{Value: v}}}}
+			if strings.HasPrefix(v, "v") {
+				cc.Coding = append(cc.Coding, &dtpb.Coding{Code: &dtpb.Code{Value: v + "-2"}})
+				cc.Text = &dtpb.String{Value: "text"}
+			}
+			e.Value = &dtpb.Extension_ValueX{Choice: &dtpb.Extension_ValueX_CodeableConcept{CodeableConcept: cc}}
+		case 4:
+			st := &dtpb.String{Value: v}
+			if strings.HasPrefix(v, "v") {
+				st.Id = &dtpb.String{Value: "sid"}
+				st.Extension = []*dtpb.Extension{{Url: &dtpb.Uri{Value: "http://u/inner"}, Value: &dtpb.Extension_ValueX{Choice: &dtpb.Extension_ValueX_Boolean{Boolean: &dtpb.Boolean{Value: true}}}}}
+			}
+			e.Value = &dtpb.Extension_ValueX{Choice: &dtpb.Extension_ValueX_StringValue{StringValue: st}}
+		default:
+			e.Value = &dtpb.Extension_ValueX{Choice: &dtpb.Extension_ValueX_StringValue{StringValue: &dtpb.String{Value: v}}}
+		}
+		return e
 	}
 	target := &dtpb.HumanName{Family: &dtpb.String{Value: "X"}}
 	n := rng.Intn(6)
@@ -582,7 +618,7 @@ func runC20(env *core.Env) {
 			c20Ext(env, i)
 		}
 	}
-	for k := 0; k < env.Size(400, 20000); k++ {
+	for k := 0; k < env.Size(4000, 60000); k++ {
 		if mine() {
 			c20Mut(env, env.Seed*7+uint64(k))
 		}
